@@ -411,6 +411,8 @@ func Run[C any](t *testing.T, unit string, spec Spec[C]) {
 	}
 	completed := false
 	defer func() { rec.Flush(completed) }()
+	current = rec
+	defer func() { current = nil }()
 	rapid.Check(t, func(rt *rapid.T) {
 		c := spec.Gen(rt)
 		var classes []string
@@ -426,6 +428,17 @@ func Run[C any](t *testing.T, unit string, spec Spec[C]) {
 		}
 	})
 	completed = !t.Failed()
+}
+
+// current is the recorder of the Run in progress (one at a time per process).
+var current *Recorder
+
+// Excluded counts a case class that a generator excluded by construction
+// (the input class of a recorded finding) in the running unit's statistics.
+func Excluded(class string) {
+	if current != nil {
+		current.Exclude(class)
+	}
 }
 
 // Enum is the runner for enumerated (non-random) spaces.
